@@ -21,6 +21,9 @@ type Op struct {
 	D  bool      `json:"d"`
 	Ms int       `json:"ms"`
 	G  int       `json:"g"`
+	// X: the operation (the last one of a non-main goroutine) is executed by a deferred call that runs
+	// because the goroutine called runtime.Goexit; the goroutine is alive until it completes.
+	X bool `json:"x,omitempty"`
 }
 
 type Callback struct {
@@ -28,6 +31,9 @@ type Callback struct {
 	G       int    `json:"g"`
 	Op      *Op    `json:"op,omitempty"`
 	Recover bool   `json:"recover"`
+	// Deferred (chanop): the callback panics with PanicCbFirst and the operation is performed by one of its
+	// deferred calls while that panic is in flight; what JavaScript catches is the last panic raised.
+	Deferred bool `json:"deferred,omitempty"`
 }
 
 type Scenario struct {
@@ -41,6 +47,7 @@ const (
 	PanicSendClosed  = "runtime error: send on closed channel"
 	PanicCloseClosed = "runtime error: close of closed channel"
 	PanicCloseNil    = "runtime error: close of nil channel"
+	PanicCbFirst     = "cbfirst"
 	PanicCbBlock     = "runtime error: cannot block in JavaScript callback, fix by wrapping code in goroutine"
 )
 
@@ -715,10 +722,15 @@ func (e *Explorer) successors(s *state) (succ []*state, terminal string) {
 			ss, park := e.doOp(s, cb.Op, func(n *state, res string) {
 				if strings.HasPrefix(res, "panic=") && !cb.Recover {
 					n.cbs[ci] = "thrown:" + strings.TrimPrefix(res, "panic=")
+				} else if cb.Deferred {
+					n.cbs[ci] = "thrown:" + PanicCbFirst
 				} else {
 					n.cbs[ci] = "ret:" + res
 				}
 			})
+			if cb.Deferred {
+				e.Reach["callback_op_in_deferred_call_while_panicking"] = true
+			}
 			if park {
 				e.Reach["callback_would_block"] = true
 				n := s.clone()
